@@ -699,3 +699,94 @@ func (c *Invalidation) Step(it *Interp, st *StepInfo) {
 }
 
 var _ = sdk.NewInt
+
+// ================================================================ C01
+
+// Solvency: after every step, per denom (exact rationals, hub units)
+//
+//	supply + in-flight - executed-but-unobserved <= custody held by the external chains.
+type Solvency struct {
+	Deposits, FeeDeposits, NonTrivialSteps int
+	preFunded                              map[string]*big.Int
+}
+
+func ratFromExt(dec uint64, x *big.Int) *big.Rat {
+	return new(big.Rat).SetFrac(new(big.Int).Mul(x, pow10(18)), pow10(dec))
+}
+
+func (c *Solvency) Step(it *Interp, st *StepInfo) {
+	if c.preFunded == nil {
+		for _, w := range it.W {
+			w.CheckFunds = true
+		}
+		c.preFunded = map[string]*big.Int{}
+		if it.C.Funds != "" {
+			for _, d := range it.Denoms {
+				c.preFunded[d] = new(big.Int).Mul(bigOf(it.C.Funds), big.NewInt(3))
+			}
+		}
+	}
+	for _, d := range it.Denoms {
+		lhs := new(big.Rat).SetInt(st.Post.Supply[d])
+		rhs := new(big.Rat)
+		if f := c.preFunded[d]; f != nil {
+			rhs.SetInt(f)
+		}
+		for _, ch := range ExtChains {
+			tok := it.H.TokenByDenom(ch, d)
+			if tok == nil {
+				continue
+			}
+			w := it.W[ch]
+			cs := st.Post.Chains[ch]
+			add := func(e *mtypes.SendToExternal, all bool, sign int64) {
+				if e.Token.ExternalTokenId != tok.ExtId {
+					return
+				}
+				v := new(big.Int).Set(e.Token.Amount.BigInt())
+				if all {
+					v.Add(v, e.Fee.Amount.BigInt())
+					v.Add(v, e.ValCommission.Amount.BigInt())
+				}
+				r := ratFromExt(tok.Decimals, v)
+				if sign < 0 {
+					lhs.Sub(lhs, r)
+				} else {
+					lhs.Add(lhs, r)
+				}
+			}
+			for _, e := range cs.Pool {
+				add(e, true, 1)
+			}
+			for _, b := range cs.Batches {
+				for _, tx := range b.Transactions {
+					add(tx, true, 1)
+					if w.Executed[b.BatchNonce] {
+						add(tx, false, -1) // already paid out externally, the hub has not seen it yet
+					}
+				}
+			}
+			cust := new(big.Int)
+			if w.Custody[tok.ExtId] != nil {
+				cust.Set(w.Custody[tok.ExtId])
+			}
+			if w.Paid[tok.ExtId] != nil {
+				cust.Sub(cust, w.Paid[tok.ExtId])
+			}
+			rhs.Add(rhs, ratFromExt(tok.Decimals, cust))
+		}
+		if lhs.Cmp(rhs) > 0 {
+			it.Fail("C01", "vouchers-exceed-collateral", "denom %s after %s of %v: supply + in-flight = %s exceeds external custody %s (supply %s)", d, st.Phase, st.Op, lhs.FloatString(3), rhs.FloatString(3), st.Post.Supply[d])
+			return
+		}
+	}
+	// supply grows only by observed deposits or by re-minting what was burned for an in-flight transfer
+	if st.Phase == "op" && st.Res != nil && st.Op != nil && (st.Op.K == "send" || st.Op.K == "send2" || st.Op.K == "reqbatch") {
+		for _, d := range it.Denoms {
+			if st.Post.Supply[d].Cmp(st.Pre.Supply[d]) > 0 {
+				it.Fail("C01", "supply-grew-without-deposit", "supply of %s grew from %s to %s in %v", d, st.Pre.Supply[d], st.Post.Supply[d], st.Op)
+				return
+			}
+		}
+	}
+}
